@@ -293,6 +293,17 @@ func init() {
 				seedK := r.Intn(1000)
 				go func(gi, seedK int) {
 					defer wg.Done()
+					defer func() {
+						// a panic while a goroutine builds its own schemas (AddType loads the type): a result that differs from the sequential run
+						if r := recover(); r != nil {
+							mu.Lock()
+							diffs++
+							if firstDiff == "" {
+								firstDiff = fmt.Sprint("PANIC while building the schemas of a goroutine: ", r)
+							}
+							mu.Unlock()
+						}
+					}()
 					mine := ss
 					if mine == nil { // private scenario: own objects, created and compiled concurrently with everybody else
 						sc := *scenario
@@ -311,7 +322,15 @@ func init() {
 					for i := 0; i < 12; i++ {
 						k := (seedK + i*5) % 35
 						si := (gi + i) % len(mine)
-						got := call(mine[si], k)
+						got := func() (res string) {
+							// a panic of a public call under concurrent use is a result like any other (it differs from the sequential one)
+							defer func() {
+								if r := recover(); r != nil {
+									res = fmt.Sprint("PANIC: ", r)
+								}
+							}()
+							return call(mine[si], k)
+						}()
 						if i%3 == 0 {
 							runtime.Gosched()
 						}
